@@ -484,6 +484,8 @@ class DataPath:
                 and is_single_cond
                 and isinstance(part.condition, cnds.Key)
                 and part.condition.callable.name == "equal_to"
+                # only a str or float is turned back into a `MapValue` by the constructor:
+                and isinstance(part.condition.callable.kwargs["value"], (str, float))
             ):
                 out.append(part.condition.callable.kwargs["value"])
             elif (
@@ -495,6 +497,13 @@ class DataPath:
                 and isinstance(part.map_condition, cnds.Key)
                 and not part.map_condition.flatten()[1]
                 and part.map_condition.callable.name == "equal_to"
+                # only an int is turned back into a `MapOrListValue` by the constructor,
+                # with that int as both the key and the index:
+                and isinstance(part.list_condition.callable.kwargs["value"], int)
+                and (
+                    part.map_condition.callable.kwargs["value"]
+                    == part.list_condition.callable.kwargs["value"]
+                )
             ):
                 out.append(part.list_condition.callable.kwargs["value"])
             else:
